@@ -548,7 +548,7 @@ func main() {
 		},
 		Cases: func(tier string) int {
 			if tier == "thorough" {
-				return 4000
+				return 3000
 			}
 			return 96
 		},
@@ -567,7 +567,7 @@ func main() {
 		},
 		Run:         run,
 		CaseTimeout: 600 * time.Second,
-		Floors: map[string]int64{"runs": 2000, "cni_adds": 5000, "cni_adds_ok": 2000, "cni_dels": 5000, "cni_dels_ok": 4000, "datastore_calls": 100000,
-			"fault_abort-before": 1000, "fault_lost-reply": 200, "fault_spurious-conflict": 100, "fault_crash-after": 200, "rollback_cases_judged": 50},
+		Floors: map[string]int64{"runs": 1200, "cni_adds": 5000, "cni_adds_ok": 3000, "cni_dels": 7000, "cni_dels_ok": 7000, "datastore_calls": 100000,
+			"fault_abort-before": 700, "fault_lost-reply": 170, "fault_spurious-conflict": 120, "fault_crash-after": 170, "rollback_cases_judged": 900, "committed_writes": 30000},
 	})
 }
